@@ -27,7 +27,8 @@ from vlib.front import unparse, dotted, const_value, AnchorMissing
 
 ALF = 'phylib/io/alf.py'
 M = 'phylib/io/model.py'
-FLOOR = 41
+FLOOR = 24          # decided obligations below this = the analysis lost its footing (exit 2); clean tree: 69
+RULES = ('C13.A1', 'C13.F1', 'C13.H1', 'C13.P1', 'C13.T1', 'C13.U1', 'C13.U2')          # every obligation group must report (holds / violated / undecided): a group that vanishes silently is an analysis error
 SUBSET = ['_phy_spikes_subset.waveforms.npy', '_phy_spikes_subset.spikes.npy', '_phy_spikes_subset.channels.npy']
 EXPLANATION = ('fx engine over the call tree of EphysAlfCreator.convert with symbolic roots SRC / OUT (the model shares SRC) against the '
                'directory-role whitelist; tab rules compare the file names written by the exporter (direct saves and copy table), with '
@@ -316,21 +317,44 @@ def u1_h1(ctx):
         ctx.check(c is not None and len(c.args) >= 2 and unparse(c.args[1]) == src, 'C13.U1', mt, c or nm, '%s is written from the model\'s %s' % (nm, what),
                   '%s is written from `%s`, not from the model\'s %s' % (nm, unparse(c.args[1]) if c is not None and len(c.args) > 1 else '?', what))
     mc = repo.lookup_method(cls, 'make_cluster_objects')
-    ext = [c for c in mc.calls() if q.method_name(c) == 'extend']
-    oku = False
-    if ext and isinstance(ext[0].args[0], ast.ListComp):
-        lc = ext[0].args[0]
-        it = unparse(lc.generators[0].iter).replace(' ', '')
-        size_src = None
-        if it.startswith('range(') and it.endswith('.size)'):
-            nm = it[6:-6]
-            d = mc.unique_def(nm)
-            size_src = unparse(d).replace(' ', '') if d is not None else None
-        oku = 'uuid.uuid4()' in unparse(lc.elt) and size_src is not None and 'self.model.clusters_channels.shape[0]' in size_src
-    ctx.check(oku, 'C13.U1', mc, ext[0] if ext else 'make_cluster_objects', 'one fresh uuid per row of the cluster tables (number of clusters_channels entries)',
-              'the uuid list is not one uuid4 per cluster row')
-    hdr = [a for a in mc.nodes(ast.Assign) if isinstance(a.value, ast.List) and [const_value(e) for e in a.value.elts] == ['uuids']]
-    ctx.check(bool(hdr), 'C13.U1', mc, hdr[0] if hdr else 'make_cluster_objects', "the uuid file starts with the header line 'uuids'", 'the uuid file has no header line')
+    # the uuid file: header line 'uuids' + one fresh uuid4 per ROW of the cluster tables. The lines are either one expression
+    # (['uuids'] + [str(uuid.uuid4()) for _ in range(n)]) or a list started with the header and extended by the comprehension
+    joins = [c for c in mc.calls() if isinstance(c.func, ast.Attribute) and c.func.attr == 'join' and const_value(c.func.value) == '\n' and c.args]
+    header, comp = None, None
+    for jn in joins:
+        e = mc.expand(jn.args[0])
+        if isinstance(e, ast.BinOp) and isinstance(e.op, ast.Add) and isinstance(e.left, ast.List) and isinstance(e.right, (ast.ListComp, ast.GeneratorExp)):
+            header, comp = e.left, e.right
+        elif isinstance(e, ast.List) and isinstance(jn.args[0], ast.Name):
+            header = e
+            for c in mc.calls():
+                if q.method_name(c) == 'extend' and isinstance(c.func.value, ast.Name) and c.func.value.id == jn.args[0].id and c.args:
+                    x = mc.expand(c.args[0])
+                    if isinstance(x, (ast.ListComp, ast.GeneratorExp)):
+                        comp = x
+        elif isinstance(e, (ast.ListComp, ast.GeneratorExp)):
+            header, comp = False, e
+    if comp is None:
+        ctx.undecided('C13.U1', mc, 'construction of the uuid lines not recognised')
+    else:
+        fresh = any(isinstance(n, ast.Call) and dotted(n.func) in ('uuid.uuid4', 'uuid4') for n in ast.walk(comp.elt))
+        it = mc.expand(comp.generators[0].iter)
+        n_e = it.args[0] if isinstance(it, ast.Call) and dotted(it.func) == 'range' and len(it.args) == 1 else None
+        n_txt = unparse(mc.expand(n_e, depth=8)) if n_e is not None else ''
+        rows = 'self.model.clusters_channels' in n_txt
+        wrong = any(x in n_txt for x in ('self.model.n_clusters', 'self.model.cluster_ids', 'self.model.n_templates', 'self.model.template_ids', 'self.cluster_ids'))
+        if fresh and rows and not comp.generators[0].ifs:
+            ctx.holds('C13.U1', mc, 'one fresh uuid per row of the cluster tables (number of clusters_channels entries)', comp)
+        elif not fresh or wrong or comp.generators[0].ifs:
+            ctx.violated('C13.U1', mc, comp, 'the uuid list is not one uuid4 per cluster row (`%s` over `%s`)' % (unparse(comp.elt)[:40], n_txt[:60]))
+        else:
+            ctx.undecided('C13.U1', mc, 'number of uuid lines `%s` not recognised' % n_txt[:60], comp)
+        if header is False or (isinstance(header, ast.List) and [const_value(e_) for e_ in header.elts] != ['uuids']):
+            ctx.violated('C13.U1', mc, jn, "the uuid file does not start with the header line 'uuids'")
+        elif isinstance(header, ast.List):
+            ctx.holds('C13.U1', mc, "the uuid file starts with the header line 'uuids'", header)
+        else:
+            ctx.undecided('C13.U1', mc, 'header of the uuid file not recognised')
     # H1
     gm = repo.func(M, 'TemplateModel.get_merge_map')
     arrs = [c for c in gm.calls() if dotted(c.func) in ('np.array', 'np.asarray') and c.args and isinstance(c.args[0], (ast.ListComp, ast.List))]
@@ -343,9 +367,11 @@ def u1_h1(ctx):
     if not arrs:
         ctx.holds('C13.H1', gm, 'no untyped array built from a possibly empty list in get_merge_map', 'get_merge_map', nontrivial=False)
     # exporter uses nan_idx as an index
-    uses = [n for m in cls.methods.values() for n in m.nodes(ast.Subscript) if unparse(n.slice) == 'self.model.nan_idx']
-    ctx.check(len(uses) >= 2, 'C13.H1', ALF + ':EphysAlfCreator', 'uses of nan_idx', 'empty cluster ids are blanked with NaN in the cluster tables (%d sites)' % len(uses),
-              'the exporter no longer blanks the rows of empty cluster ids')
+    from obligations.C14 import blanked
+    from obligations.shape_tables import alf_run
+    for meth_, file_, what_ in (('make_cluster_objects', 'clusters.peakToTrough.npy', 'durations'), ('make_depths', 'clusters.depths.npy', 'depths')):
+        S_, saved_, fi_ = alf_run(repo, meth_)
+        blanked(ctx, repo, fi_, saved_.get(file_, (None, None))[1], 'C13.H1', what_)
 
 
 def run(ctx):
